@@ -311,6 +311,7 @@ type fctx struct {
 	fresh    map[types.Object]bool
 	closures map[types.Object]*ast.FuncLit
 	aliases  map[types.Object]string // local var -> element location
+	handles  map[types.Object]string // local var holding the unlock closure of a keyed lock wrapper -> lock name
 	depth    int
 	// exits: states at return statements / end (for balance)
 	firstBal int
@@ -541,7 +542,7 @@ func (c *fctx) async(lit *ast.FuncLit, why string) {
 	id := fmt.Sprintf("%s$%s%d", c.fn, why, c.a.pseudo)
 	c.a.funcs[id] = c.pos(lit)
 	c.a.roots[id] = true
-	n := &fctx{a: c.a, p: c.p, fn: id, fresh: c.fresh, closures: c.closures, aliases: c.aliases, depth: c.depth + 1}
+	n := &fctx{a: c.a, p: c.p, fn: id, fresh: c.fresh, closures: c.closures, aliases: c.aliases, handles: c.handles, depth: c.depth + 1}
 	n.body(lit.Body, state{})
 }
 
@@ -551,7 +552,7 @@ func (c *fctx) asyncCall(call *ast.CallExpr, why string) {
 	id := fmt.Sprintf("%s$%s%d", c.fn, why, c.a.pseudo)
 	c.a.funcs[id] = c.pos(call)
 	c.a.roots[id] = true
-	n := &fctx{a: c.a, p: c.p, fn: id, fresh: c.fresh, closures: c.closures, aliases: c.aliases, depth: c.depth + 1}
+	n := &fctx{a: c.a, p: c.p, fn: id, fresh: c.fresh, closures: c.closures, aliases: c.aliases, handles: c.handles, depth: c.depth + 1}
 	n.call(call, state{}, true)
 }
 
@@ -597,11 +598,15 @@ func (c *fctx) acquire(x ast.Expr, op string, st state, n ast.Node) state {
 }
 
 func (c *fctx) release(x ast.Expr, op string, st state, n ast.Node, deferred bool) state {
-	name := c.lockName(x)
 	mode := "excl"
 	if op == "RUnlock" {
 		mode = "shared"
 	}
+	return c.releaseName(c.lockName(x), mode, st, n, deferred)
+}
+
+// releaseName: every lock must be released exactly once on every path — a deferred release XOR explicit ones.
+func (c *fctx) releaseName(name, mode string, st state, n ast.Node, deferred bool) state {
 	h, ok := st[name]
 	if !ok || h.mode != mode {
 		c.a.bals = append(c.a.bals, bal{fn: c.fn, lock: name, mode: mode, how: "unheld", pos: c.pos(n)})
@@ -609,6 +614,10 @@ func (c *fctx) release(x ast.Expr, op string, st state, n ast.Node, deferred boo
 	}
 	st = st.clone()
 	if deferred {
+		if h.deferred {
+			// a second deferred release of the same acquisition
+			c.a.bals = append(c.a.bals, bal{fn: c.fn, lock: name, mode: mode, how: "unheld", pos: c.pos(n)})
+		}
 		h.deferred = true
 		st[name] = h
 		if h.site >= 0 {
@@ -616,11 +625,45 @@ func (c *fctx) release(x ast.Expr, op string, st state, n ast.Node, deferred boo
 		}
 	} else {
 		if h.deferred {
+			// explicit release although the release is already deferred: the deferred one releases an unheld lock
 			c.a.bals = append(c.a.bals, bal{fn: c.fn, lock: name, mode: mode, how: "unheld", pos: c.pos(n)})
 		}
 		delete(st, name)
 	}
 	return st
+}
+
+// keyedWrapperCall: `recv.lockPod(..)` / `lockPod(..)` — a call of a wrapper that locks and returns the unlock closure
+func (c *fctx) keyedWrapperCall(e ast.Expr) (call *ast.CallExpr, name string, ok bool) {
+	call, isCall := unparen(e).(*ast.CallExpr)
+	if !isCall {
+		return nil, "", false
+	}
+	switch f := unparen(call.Fun).(type) {
+	case *ast.SelectorExpr:
+		if keyedWrappers[f.Sel.Name] {
+			return call, "keyed:" + c.p.name + "." + f.Sel.Name, true
+		}
+	case *ast.Ident:
+		if keyedWrappers[f.Name] {
+			return call, "keyed:" + c.p.name + "." + f.Name, true
+		}
+	}
+	return nil, "", false
+}
+
+// handleOf: is this expression a local variable that holds the unlock closure of a keyed lock?
+func (c *fctx) handleOf(e ast.Expr) (string, bool) {
+	id, ok := unparen(e).(*ast.Ident)
+	if !ok {
+		return "", false
+	}
+	obj := c.p.info.Uses[id]
+	if obj == nil {
+		return "", false
+	}
+	name, ok := c.handles[obj]
+	return name, ok
 }
 
 func deferredOnly(st state) state {
@@ -654,6 +697,21 @@ func (c *fctx) stmt(s ast.Stmt, st state) (state, bool) {
 				c.exprs(st, call.Args...)
 				return c.inline(lit, st), false
 			}
+			// u() where u := recv.lockPod(..): explicit release of the keyed lock
+			if name, ok := c.handleOf(call.Fun); ok && len(call.Args) == 0 {
+				return c.releaseName(name, "excl", st, call, false), false
+			}
+			// recv.lockPod(..)() as a statement: locked and released at once
+			if inner, _, ok := c.keyedWrapperCall(call.Fun); ok && len(call.Args) == 0 {
+				c.exprs(st, inner.Args...)
+				return st, false
+			}
+			// recv.lockPod(..) as a statement: the unlock closure is dropped, the lock can never be released
+			if inner, name, ok := c.keyedWrapperCall(call); ok {
+				c.exprs(st, inner.Args...)
+				c.a.bals = append(c.a.bals, bal{fn: c.fn, lock: name, mode: "excl", how: "leaked", pos: c.pos(call)})
+				return st, false
+			}
 		}
 		c.expr(v.X, st)
 		return st, false
@@ -678,10 +736,13 @@ func (c *fctx) stmt(s ast.Stmt, st state) (state, bool) {
 				return st, false
 			}
 		}
+		if name, ok := c.handleOf(call.Fun); ok && len(call.Args) == 0 {
+			return c.releaseName(name, "excl", st, call, true), false
+		}
 		if lit, ok := unparen(call.Fun).(*ast.FuncLit); ok {
 			c.exprs(st, call.Args...)
 			// runs at exit, before the unlocks that were deferred earlier
-			n := &fctx{a: c.a, p: c.p, fn: c.fn, fresh: c.fresh, closures: c.closures, aliases: c.aliases, depth: c.depth + 1}
+			n := &fctx{a: c.a, p: c.p, fn: c.fn, fresh: c.fresh, closures: c.closures, aliases: c.aliases, handles: c.handles, depth: c.depth + 1}
 			n.body(lit.Body, deferredOnly(st))
 			return st, false
 		}
@@ -731,6 +792,27 @@ func (c *fctx) stmt(s ast.Stmt, st state) (state, bool) {
 					}
 					if obj != nil {
 						c.closures[obj] = lit
+						return st, false
+					}
+				}
+			}
+		}
+		if len(v.Lhs) == 1 && len(v.Rhs) == 1 {
+			if inner, name, ok := c.keyedWrapperCall(v.Rhs[0]); ok {
+				if id, ok := v.Lhs[0].(*ast.Ident); ok {
+					obj := c.p.info.Defs[id]
+					if obj == nil {
+						obj = c.p.info.Uses[id]
+					}
+					if obj != nil {
+						c.exprs(st, inner.Args...)
+						if sel, ok := unparen(inner.Fun).(*ast.SelectorExpr); ok {
+							c.expr(sel.X, st)
+						}
+						c.handles[obj] = name
+						st = st.clone()
+						c.a.bals = append(c.a.bals, bal{fn: c.fn, lock: name, mode: "excl", how: "matched", pos: c.pos(inner)})
+						st[name] = held{mode: "excl", site: len(c.a.bals) - 1}
 						return st, false
 					}
 				}
@@ -957,7 +1039,7 @@ func (c *fctx) inline(lit *ast.FuncLit, st state) state {
 		c.a.fail("%s: closure nesting too deep", c.pos(lit))
 		return st
 	}
-	n := &fctx{a: c.a, p: c.p, fn: c.fn, fresh: c.fresh, closures: c.closures, aliases: c.aliases, depth: c.depth + 1}
+	n := &fctx{a: c.a, p: c.p, fn: c.fn, fresh: c.fresh, closures: c.closures, aliases: c.aliases, handles: c.handles, depth: c.depth + 1}
 	// the closure's own deferred unlocks are its own business: mark the outer locks as deferred for its scope
 	inner := state{}
 	for k, v := range st {
@@ -1377,7 +1459,7 @@ func (a *analysis) analysePkg(p *pkgInfo) {
 			a.exported[d.id] = true
 		}
 		c := &fctx{a: a, p: p, fn: d.id, fresh: map[types.Object]bool{}, closures: map[types.Object]*ast.FuncLit{},
-			aliases: map[types.Object]string{}}
+			aliases: map[types.Object]string{}, handles: map[types.Object]string{}}
 		st := state{}
 		if pl, ok := confined[d.id]; ok {
 			st[pl] = held{mode: "excl", deferred: true, site: -1}
